@@ -106,6 +106,12 @@ def add_header_to_file(
     with open(path, "r", encoding="utf-8", newline="") as fp:
         text = fp.read()
 
+    # A byte order mark must stay the very first thing in the file.
+    bom = ""
+    if text.startswith("\ufeff"):
+        bom = "\ufeff"
+        text = text[1:]
+
     # Ideally, this check is done elsewhere. But that would necessitate reading
     # the file contents before this function is called.
     if skip_existing and contains_reuse_info(text):
@@ -161,7 +167,7 @@ def add_header_to_file(
         result = 1
     else:
         with open(path, "w", encoding="utf-8", newline=line_ending) as fp:
-            fp.write(output)
+            fp.write(bom + output)
         # TODO: This may need to be rephrased more elegantly.
         out.write(_("Successfully changed header of {path}").format(path=path))
         out.write("\n")
